@@ -256,5 +256,20 @@ theorem innerProduct_trace (a b : Tab) (r : Option Nat) (ga : (STab.ofTab a).Goo
     rw [ek']
     exact tp hpos
 
+/-- **mixtures**: against a pure target the value `Σ_i p_i F(T_i, T_t)` that `Infidelity.evaluate` forms for a branched
+    mixed stabilizer state is the overlap `tr(ρ_t · Σ_i p_i ρ_i)` -/
+theorem mixture_trace (a : Tab) (ga : (STab.ofTab a).Good) (l : List (ℂ × Tab × Option Nat))
+    (h : ∀ x, x ∈ l → (STab.ofTab x.2.1).Good ∧ STab.innerProduct a x.2.1 = .ok x.2.2) :
+    Matrix.trace (rho a.n (STab.ofTab a) * (l.map fun x => x.1 • rho a.n (STab.ofTab x.2.1)).sum)
+      = (l.map fun x => x.1 * ipVal x.2.2).sum := by
+  induction l with
+  | nil => simp
+  | cons x rest ih =>
+    have hx := h x List.mem_cons_self
+    have ih' := ih (fun y hy => h y (List.mem_cons_of_mem _ hy))
+    simp only [List.map_cons, List.sum_cons]
+    rw [Matrix.mul_add, Matrix.trace_add, ih', Matrix.mul_smul, Matrix.trace_smul,
+      innerProduct_trace a x.2.1 x.2.2 ga hx.1 hx.2, smul_eq_mul]
+
 end Hilbert
 end Graphiq
